@@ -444,6 +444,7 @@ Definition builtin (globals : env) (f : string) (args : list gval) : res gval :=
     end
   else if f =? "fmt.Sprintf" then
     match args with
+    | [VStr fm; VN n] => if fm =? "%d" then RRet (VTok "decimal" [VN n]) else RRet (VStr "")
     | [VStr fm; VN sq; VHexQ _] =>
         if fm =? "s%016x-%s" then RRet (VKeyQ sq) else RFail "Sprintf: batch key format"
     | [VStr fm; VKeyPrefix; VN h] =>
@@ -453,6 +454,8 @@ Definition builtin (globals : env) (f : string) (args : list gval) : res gval :=
     end
   else if f =? "hex.EncodeToString" then match args with [VHashQ b] => RRet (VHexQ b) | _ => RFail "hex.EncodeToString" end
   else if f =? "convertBatchDataToBytes" then match args with [v] => RRet v | _ => RFail "convertBatchDataToBytes" end
+  else if f =? "datastore.NewKey" then match args with [v] => RRet v | _ => RFail "datastore.NewKey" end
+  else if f =? "path.Base" then RRet (VTok f args)
   else if f =? "ds.NewKey" then match args with [v] => RRet v | _ => RFail "ds.NewKey" end
   else if f =? "fmt.Printf" then RRet VUnit
   else if f =? "proto.Marshal" then
@@ -571,6 +574,8 @@ Definition arith (o : binop) (a b : gval) : res gval :=
   | OMul, VZ x, VZ y => RRet (VZ (x * y))
   | OQuo, VZ x, VZ y => RRet (VZ (x / y))                      (* a price / duration ratio, as integers *)
   | OEq, VStatus a, VStatus b => RRet (VBool (status_eqb a b))
+  | OEq, VStr a, VStr b => RRet (VBool (str_eqb a b))
+  | ONe, VStr a, VStr b => RRet (VBool (negb (str_eqb a b)))
   | OEq, VBool x, VBool y => RRet (VBool (Bool.eqb x y))
   | OAdd, VStr x, VStr y => RRet (VStr (str_app x y))
   (* comparison with nil: the literal nil is recognised by its constructor, so that the nil-ness [p] of the other side
@@ -642,7 +647,13 @@ Definition mut_meth (v : gval) (m : string) (args : list gval) : option (gval * 
   end.
 
 Definition mut_call (f : string) (args : list gval) : option (gval * list (nat * gval)) :=
-  if f =? "proto.Unmarshal" then                                        (* proto.Unmarshal(bz, &headerPb) *)
+  if f =? "json.Unmarshal" then                                   (* json.Unmarshal(raw, &n): a stored decimal number *)
+    match args with
+    | [VTok t [VN n]; _] => if t =? "decimal" then Some (VNil, [(1%nat, VN n)]) else Some (VErr true, [])
+    | [_; _] => Some (VErr true, [])
+    | _ => None
+    end
+  else if f =? "proto.Unmarshal" then                                        (* proto.Unmarshal(bz, &headerPb) *)
     match args with
     | [VBlob (BHdr sh); VZero _] => Some (VNil, [(1%nat, VPbHeader (Some sh))])
     | [VBlob BHdrUndecodable; VZero _] => Some (VNil, [(1%nat, VPbHeader None)])
